@@ -9,6 +9,7 @@ import Blue.Proofs.ExpandClosed
 import Blue.Proofs.NextCompactionMain
 import Blue.Proofs.ConstsTieC01
 import Blue.Proofs.ApplyCompaction
+import Blue.Proofs.ApplyCompactionB
 import Blue.Proofs.StoreHistRefine
 import Blue.Proofs.StoreHistTree
 /-! # Property C01 — point reads return the latest write, whatever the tree did in between
@@ -97,6 +98,8 @@ outputs "newer above" among themselves (`pieces_newer` for pieces of one sorted 
 the outputs below them, possibly left of kept files they share no key with — the tie to
 `apply_compaction_inner` is a HYPOTHESIS of THIS section; (6) `hl0`: no file is added to level 0;
 (7) `hI1`: I1 of the successor — a HYPOTHESIS of this section (outputs inserted in key order).
+GC drops at history level: `Blue.Props.C05` `history_refines_gc` (a `compact` step may carry
+`GcCompactionOk` — outputs ⊆ inputs, newest version kept or a tombstone — instead of (3)).
 
 The two relations ARE composed (block `StoreHistTree` at the end, proofs `Blue.Proofs.StoreHistTree`):
 one state (memtables, counters, payloads, a `Blue.NextCompaction.Tree`; the dumped-state record is
@@ -115,7 +118,7 @@ step is atomic: no flush between choice and application).
 What is NOT modelled (see `partial`/`assumptions` of the claim): reopen / `recover`, the
 verifier/trash clean-ups, external ingest, failing writes, concurrency (operations are completed
 calls, reads happen between them; the window in which a flushed file and the immutable memtable
-are both visible is `Blue.Rollover`'s), GC drops at history level, `(key, timestamp)` uniqueness
+are both visible is `Blue.Rollover`'s), `(key, timestamp)` uniqueness
 (not needed: the payload map is keyed by the pair and a batch cannot name a key twice).  That the Rust code performs these
 model operations is the correspondence check (`kvsLoad` and `invB` are evaluated on every dumped
 state of every history), not a theorem.
@@ -496,6 +499,17 @@ theorem nextCompaction_chosen (n : Num) (o : Opts) (t : Tree) (og : List Core) (
     {c : Core} (h : nextCompaction n o t og = some c) : Chosen t c :=
   Blue.NextCompaction.nextCompaction_chosen n o t og hinv h
 
+/-- the Boolean check the driver evaluates on every REAL compaction step (the tree the step was
+    applied to, the compaction the real selector returned) is sound for `Chosen` -/
+theorem chosen_check_sound {t : Tree} {c : Core} (h : chosenB t c = true) : Chosen t c :=
+  Blue.NextCompaction.chosenB_sound h
+
+/-- the Boolean check the driver evaluates on the REAL outputs of every compaction step is sound
+    for `OutsOk` -/
+theorem outs_check_sound {t : Tree} {c : Core} {outs : List File} (h : outsOkB t c outs = true) :
+    OutsOk t c outs :=
+  Blue.NextCompaction.outsOkB_sound h
+
 /-- FINDING, proved harmless: the output level is cut by position, not by id; on every `Chosen`
     compaction what the cut keeps is exactly what `retain(not an input)` keeps (and
     `lower_bound ≤ upper_bound`, so the capacity subtraction does not underflow: `lb_le_ub`) -/
@@ -566,6 +580,10 @@ theorem t2_chosen : Chosen t2 c2 := Blue.Props.C01.nextCompaction_chosen ieee o2
 
 theorem outs_ok : OutsOk t2 c2 [outA, outB] :=
   outsOk_of_flatten (by decide) (by decide) (by decide) (by decide) (by decide)
+
+/-- both checks answer `true` on the example (non-vacuity of the two soundness theorems) -/
+example : chosenB t2 c2 = true := by decide +kernel
+example : outsOkB t2 c2 [outA, outB] = true := by decide +kernel
 
 theorem outs_sub : ∀ o ∈ [outA, outB], ∀ e ∈ o.vers, ∃ i f, f ∈ level t2 i ∧ f.id ∈ c2.inputs ∧ e ∈ f.vers :=
   sub_of_flatten (by decide)
@@ -997,6 +1015,8 @@ end Blue.Props.C01
 #print axioms Blue.Spec.lower_bound_mutant_misses
 #print axioms Blue.Props.C01.nextCompaction_chosen
 #print axioms Blue.Props.C01.output_level_cut_drops_exactly_inputs
+#print axioms Blue.Props.C01.chosen_check_sound
+#print axioms Blue.Props.C01.outs_check_sound
 #print axioms Blue.Props.C01.apply_components
 #print axioms Blue.Props.C01.apply_preserves_inv
 #print axioms Blue.Props.C01.apply_preserves_newer_above
